@@ -65,8 +65,15 @@ class Run(object):
         else:
             where = str(astnode)
             base = '-'
+        from .astq import alpha_text
         if construct is None:
-            construct = norm_text(astnode) if hasattr(astnode, '_fields') else str(astnode)
+            if hasattr(astnode, '_fields'):
+                construct = alpha_text(astnode, finfo.node) if finfo is not None \
+                    else norm_text(astnode)
+            else:
+                construct = str(astnode)
+        elif finfo is not None:
+            construct = alpha_text(construct, finfo.node)
         if len(construct) > 160:
             construct = construct[:160]
         key = '%s|%s|%s' % (rule, base, construct)
